@@ -228,7 +228,7 @@ PROPS = {
         trusted=["commitlog.New/Delete and os.RemoveAll below the modelled 'directory exists' semantics", "hashicorp/raft, protobuf"],
     ),
     "C05": dict(
-        lean_modules=["Liftbridge.Props.C05", "Liftbridge.Props.GoEpochCache", "Liftbridge.Props.GoRecover"],
+        lean_modules=["Liftbridge.Props.C05", "Liftbridge.Props.GoEpochCache", "Liftbridge.Props.GoRecover", "Liftbridge.Props.GoSegFiles"],
         gen_sources=["server/commitlog/" + f for f in ("segment.go", "index.go", "commitlog.go", "leader_epoch_cache.go",
                                                          "compact_cleaner.go", "delete_cleaner.go",
                                                          "util.go:findSegment:", "util.go:findSegmentByBaseOffset:")],
